@@ -13,6 +13,7 @@ This private submodule is *not* intended for importation by downstream callers.
 
 # ....................{ IMPORTS                            }....................
 from beartype._check.cls.hint.hintsane import (
+    HINT_IGNORABLE,
     HINT_SANE_IGNORABLE,
     HINT_SANE_RECURSIVE,
     HintOrSane,
@@ -288,6 +289,16 @@ def reduce_hint_pep484604_union(
         #
         # If metadata encapsulates the reduction of this child hint...
         elif isinstance(hint_child_sane, HintSane):
+            # If this child hint is ignorable but reduced to unique metadata
+            # encapsulating the "HINT_IGNORABLE" type hint rather than to the
+            # "HINT_SANE_IGNORABLE" singleton (e.g., a stringified forward
+            # reference to "typing.Any", whose metadata records this reduction
+            # to be uncacheable), this entire union is ignorable as above.
+            # Reduce this union to this metadata, preserving that record.
+            if hint_child_sane.hint is HINT_IGNORABLE:
+                return hint_child_sane
+            # Else, this child hint is unignorable.
+
             # If either...
             if (
                 # This union has no parent and is thus a root hint *OR*...
